@@ -12,6 +12,10 @@ See the included GPLv3 LICENSE file
 
 using namespace nifly;
 
+#ifdef NIFLY_VERIF
+nifly::verif::SyncHooks* nifly::verif::g_hooks = nullptr;
+#endif
+
 static const std::string NIF_GAMEBRYO = "Gamebryo File Format";
 static const std::string NIF_NETIMMERSE = "NetImmerse File Format";
 static const std::string NIF_NDS = "NDSNIF....@....@....";
@@ -58,6 +62,10 @@ void NiString::Read(NiIStream& stream, const int szSize) {
 
 	if (szSize == 1) {
 		uint8_t smSize = 0;
+#ifdef NIFLY_VERIF
+		if (verif::g_hooks)
+			verif::g_hooks->Field(true, verif::FieldKind::StrLen, sizeof(smSize), &smSize, nullptr);
+#endif
 		stream >> smSize;
 
 		buf = std::make_unique<char[]>(smSize + 1);
@@ -66,6 +74,10 @@ void NiString::Read(NiIStream& stream, const int szSize) {
 	}
 	else if (szSize == 2) {
 		uint16_t medSize = 0;
+#ifdef NIFLY_VERIF
+		if (verif::g_hooks)
+			verif::g_hooks->Field(true, verif::FieldKind::StrLen, sizeof(medSize), &medSize, nullptr);
+#endif
 		stream >> medSize;
 
 		buf = std::make_unique<char[]>(medSize + 1);
@@ -74,6 +86,10 @@ void NiString::Read(NiIStream& stream, const int szSize) {
 	}
 	else if (szSize == 4) {
 		uint32_t bigSize = 0;
+#ifdef NIFLY_VERIF
+		if (verif::g_hooks)
+			verif::g_hooks->Field(true, verif::FieldKind::StrLen, sizeof(bigSize), &bigSize, nullptr);
+#endif
 		stream >> bigSize;
 
 		buf = std::make_unique<char[]>(bigSize + 1);
@@ -122,6 +138,10 @@ void NiString::Write(NiOStream& stream, const int szSize) {
 
 
 void NiStringRef::Read(NiIStream& stream) {
+#ifdef NIFLY_VERIF
+	if (verif::g_hooks)
+		verif::g_hooks->StringRef(true, this, -1);
+#endif
 	if (stream.GetVersion().File() < V20_1_0_3) {
 		std::array<char, 2048 + 1> buf{};
 
@@ -141,6 +161,10 @@ void NiStringRef::Read(NiIStream& stream) {
 }
 
 void NiStringRef::Write(NiOStream& stream) {
+#ifdef NIFLY_VERIF
+	if (verif::g_hooks)
+		verif::g_hooks->StringRef(false, this, stream.GetBlockSize());
+#endif
 	if (stream.GetVersion().File() < V20_1_0_3) {
 		auto sz = uint32_t(str.length());
 		str.resize(sz);
